@@ -96,7 +96,8 @@ def c14(name, func, tier, maxlp, maxn, cn=None, ct=None, timeout=600, **kw):
     if ct is not None:
         defs["CT"] = ct
         b += ", threads = %d" % ct
-    return Q(name, "c14_partition.c", tier=tier, func=func, defs=defs, unwind=maxlp + 2, timeout=timeout, bounds=b + "; all other values symbolic", **kw)
+    return Q(name, "c14_partition.c", tier=tier, func=func, defs=defs, unwind=(2 * maxlp + 4) if func == "harness_thread" else maxlp + 2, timeout=timeout,
+             bounds=b + "; all other values symbolic", **kw)
 
 
 SPECS["C14"] = dict(
@@ -531,3 +532,8 @@ SPECS["C01"]["queries"] += [SPECS["C13"]["queries"][0]]  # fossil collection nev
 SPECS["C06"]["queries"] += [SPECS["C13"]["queries"][0]]  # ... nor a processed buffer its sender can still cancel
 
 SPECS["C05"]["queries"] += [P_L3]   # coast-forward re-executes exactly the still-valid events (do_rollback/silent_execution)
+
+SPECS["C10"]["queries"] += [
+    Q("serial_stop_rule_3_1", "c10_serial.c", defs={"PRED": None, "N0": 3, "NSCHED": 1}, unwind=8, timeout=2400, cost=8, mem_est=5,
+      bounds="as serial_drain, with solver-chosen predicate results per (LP, evaluation): the run stops right after the event at which the last LP's predicate first holds, and not earlier; 3 initial + 1 scheduled events"),
+]
